@@ -7,6 +7,7 @@
 From Coq Require Import ZArith List Bool Arith Lia.
 From Coq Require Import Sorted Permutation.
 From PV Require Import Base.NpSearch C12.Model C12.Spec C12.Proofs C12.Proofs2 C12.Proofs3 C12.Proofs4 C12.Proofs5 C12.Link.
+From PV Require Import C12.Dtypes C12.Proofs6 C12.Proofs7.
 From PV Require C11.Model C11.Spec C11.Proofs.
 Import ListNotations.
 Open Scope Z_scope.
@@ -314,4 +315,139 @@ Proof.
   - split; [discriminate|]. repeat constructor; cbn; try discriminate; intros c H;
       repeat (destruct H as [<-|H]; [lia|]); contradiction.
   - intros m Hm. vm_compute in Hm. injection Hm as <-. vm_compute. repeat split; reflexivity.
+Qed.
+
+(* ================= stage 3: dtypes of the merged files, the error exits exactly, checker completeness ================= *)
+
+(* which dtype each merged file gets (PV.C12.Dtypes.merged_dt, compared with the merged directory by Corr.v): channel map,
+   probe labels, positions and templates take the dtype of the FIRST probe's file; both index tables are uint32 whatever
+   the (signed or unsigned) dtypes of the inputs; the three block-diagonal matrices are given by misc_dt *)
+Theorem C12_dtypes : forall d0 rest,
+  exists m, merged_dt (d0 :: rest) = Some m /\
+    md_map m = d_cm d0 /\ md_probe m = d_cm d0 /\ md_pos m = d_pos d0 /\ md_tmpl m = d_tmpl d0 /\
+    md_pc m = U32 /\ md_tf m = U32 /\
+    md_wm m = misc_dt (map d_wm (d0 :: rest)) /\ md_wmi m = misc_dt (map d_wmi (d0 :: rest)) /\
+    md_sim m = misc_dt (map d_sim (d0 :: rest)).
+Proof. exact merged_dt_spec. Qed.
+Print Assumptions C12_dtypes.
+
+(* a merged matrix has dtype d iff every probe has the file and d is the least upper bound (float32 <= float64) of the
+   probes' dtypes: above each of them and one of them *)
+Theorem C12_dtypes_matrices : forall l d,
+  misc_dt l = Some d <->
+  (l <> [] /\ ~ In None l /\ (forall x, In (Some x) l -> fle x d) /\ In (Some d) l).
+Proof. exact misc_dt_spec. Qed.
+Print Assumptions C12_dtypes_matrices.
+
+(* the dtype function and the value model agree on which matrices are written at all *)
+Theorem C12_dtypes_written : forall (A R : Type) (zero : A) (ps : list (probe A R)) (ds : list pdt)
+    (fp : probe A R -> option (list (list A))) (fd : pdt -> option fdt),
+  ps <> [] -> Forall2 (fun p d => match fp p, fd d with Some _, Some _ | None, None => True | _, _ => False end) ps ds ->
+  (write_misc zero (map fp ps) = None <-> misc_dt (map fd ds) = None).
+Proof. exact (@misc_written_iff). Qed.
+Print Assumptions C12_dtypes_written.
+
+Example C12_ex_dtypes :
+  merged_dt [mkpdt I32 F64 F32 U16 I64 (Some F32) None (Some F32); mkpdt U32 F32 F64 I32 U32 (Some F64) None None;
+             mkpdt I64 F32 F64 I32 U32 (Some F32) None (Some F64)]
+  = Some (mkmdt I32 I32 F64 F32 U32 U32 (Some F64) None None).
+Proof. reflexivity. Qed.
+
+(* C12_defined is an equivalence: the model is undefined (phylib raises) ONLY without probes, with an empty channel
+   map / position array, or with unequal numbers of waveform samples *)
+Theorem C12_defined_iff : forall (A R : Type) (zero : A) (unit : Z) (ps : list (probe A R)),
+  (exists m, merge_side zero unit ps = Some m) <->
+  (ps <> [] /\ (forall p, In p ps -> p_cm p <> [] /\ p_pos p <> []) /\
+   (exists ns, forall p, In p ps -> tshape1 (p_tmpl p) = ns)).
+Proof. exact (@merge_side_defined_iff). Qed.
+Print Assumptions C12_defined_iff.
+
+(* with >= 1 probe and non-empty channel arrays the only exit left is the assertion of write_templates: two probes
+   whose templates have different numbers of samples *)
+Theorem C12_assertion_exit : forall (A R : Type) (zero : A) (unit : Z) (ps : list (probe A R)),
+  ps <> [] -> (forall p, In p ps -> p_cm p <> [] /\ p_pos p <> []) ->
+  (merge_side zero unit ps = None <-> exists p q, In p ps /\ In q ps /\ tshape1 (p_tmpl p) <> tshape1 (p_tmpl q)).
+Proof. exact (@merge_side_assertion). Qed.
+Print Assumptions C12_assertion_exit.
+
+Example C12_ex_exits :
+  (exists m, merge_side 0 4 ex_ps = Some m) /\
+  merge_side 0 4 [ mkprobe [0] [mkxy 0 0] [[[1]; [2]]] [[0]] [[0]] None None None (mkpar 30000 1 0);
+                   mkprobe [0] [mkxy 0 0] [[[1]]] [[0]] [[0]] None None None (mkpar 30000 1 0) : probe Z Z ] = None /\
+  merge_side 0 4 [ mkprobe [] [mkxy 0 0] [[[1]]] [[0]] [[0]] None None None (mkpar 30000 1 0) : probe Z Z ] = None /\
+  merge_side 0 4 ([] : list (probe Z Z)) = None.
+Proof. split; [eexists; vm_compute; reflexivity|]. repeat split; reflexivity. Qed.
+
+(* completeness of the checkers (with C12_checker_sound_*: checker = true <-> statement): a clause code 21..25 / 27 of
+   Corr.v is raised on an observed array exactly when the declarative statement is false of it *)
+Theorem C12_checker_complete_templates : forall (A : Type) (zero : A) (eqb : A -> A -> bool),
+  (forall x, eqb x x = true) ->
+  forall Ts out, TemplateBlocks zero Ts out -> template_blocks_b zero eqb Ts out = true.
+Proof. exact (@template_blocks_b_complete). Qed.
+Print Assumptions C12_checker_complete_templates.
+
+Theorem C12_checker_complete_block_diag : forall (A : Type) (zero : A) (eqb : A -> A -> bool),
+  (forall x, eqb x x = true) ->
+  forall Ms out, BlockDiag zero Ms out -> block_diag_b zero eqb Ms out = true.
+Proof. exact (@block_diag_b_complete). Qed.
+Print Assumptions C12_checker_complete_block_diag.
+
+Theorem C12_checker_complete_channels : forall cms poss omap oprobe opos,
+  ChanLabels cms oprobe -> ChanMap cms omap -> PosBlocks poss opos ->
+  chan_labels_b cms oprobe = true /\ chan_map_b cms omap = true /\ pos_blocks_b poss opos = true.
+Proof.
+  intros. split; [now apply chan_labels_b_complete|]. split; [now apply chan_map_b_complete|now apply pos_blocks_b_complete].
+Qed.
+Print Assumptions C12_checker_complete_channels.
+
+Theorem C12_checker_complete_apart : forall lens opos, Apart lens opos -> apart_b lens opos = true.
+Proof. exact apart_b_complete. Qed.
+Print Assumptions C12_checker_complete_apart.
+
+Theorem C12_checker_complete_tables : forall off ts out, TableShift off ts out -> table_shift_b off ts out = true.
+Proof. exact table_shift_b_complete. Qed.
+Print Assumptions C12_checker_complete_tables.
+
+Theorem C12_checker_complete_spike_rows : forall (A B : Type) (zero : A) (eqb : A -> A -> bool),
+  (forall x, eqb x x = true) ->
+  (forall Ts (M : list (C11.Spec.tagged B)) ids out, SpikeRows zero Ts M ids out -> spike_rows_b zero eqb Ts M ids out = true) /\
+  (forall off tfs (M : list (C11.Spec.tagged B)) ids out, SpikeTable off tfs M ids out -> spike_table_b off tfs M ids out = true).
+Proof.
+  intros A B zero eqb H. split; [intros; now apply (spike_rows_b_complete zero eqb H)|intros; now apply spike_table_b_complete].
+Qed.
+Print Assumptions C12_checker_complete_spike_rows.
+
+(* hence the checkers accept the model's own output on every input of the regime: whenever phylib's arrays equal the
+   model's (no code 1), none of the clause codes 21, 22, 23, 25 can be raised -- the theorems above and the checks
+   run by Corr.v cannot disagree *)
+Theorem C12_model_accepted : forall (A R : Type) (zero : A) (eqb : A -> A -> bool) (unit : Z) (ps : list (probe A R)) m,
+  (forall x, eqb x x = true) -> merge_side zero unit ps = Some m ->
+  0 < unit -> (forall p q, In p ps -> In q (p_pos p) -> 0 <= px q) ->
+  (forall p, In p ps -> RectT (p_tmpl p)) -> (forall p, In p ps -> length (p_tf p) = length (p_tmpl p)) ->
+  NoWrap (coffZ ps) (map p_pc ps) -> NoWrap (toffZ ps) (map p_tf ps) ->
+  chan_labels_b (map p_cm ps) (m_probe m) = true /\ chan_map_b (map p_cm ps) (m_map m) = true /\
+  pos_blocks_b (map p_pos ps) (m_pos m) = true /\
+  apart_b (map (fun p => length (p_pos p)) ps) (m_pos m) = true /\
+  template_blocks_b zero eqb (map p_tmpl ps) (m_tmpl m) = true /\
+  table_shift_b (coffZ ps) (map p_pc ps) (m_pc m) = true /\ table_shift_b (toffZ ps) (map p_tf ps) (m_tf m) = true.
+Proof.
+  intros A R zero eqb unit ps m Hr Hm Hu Hx HT Hl N1 N2.
+  destruct (merge_channel_blocks zero unit ps m Hm) as (C1 & C2 & dxs & D1 & _ & D3).
+  destruct (merge_index_tables zero unit ps m Hm Hl N1 N2) as [T1 T2].
+  split; [now apply chan_labels_b_complete|]. split; [now apply chan_map_b_complete|].
+  split; [apply pos_blocks_b_complete; exists dxs; split; [now rewrite map_length|exact D3]|].
+  split; [apply apart_b_complete; now apply (merge_apart zero unit ps m)|].
+  split; [apply (template_blocks_b_complete zero eqb Hr); now apply (merge_template_blocks zero unit ps m)|].
+  split; now apply table_shift_b_complete.
+Qed.
+Print Assumptions C12_model_accepted.
+
+Example C12_ex_accepted : forall m, merge_side 0 4 ex_ps = Some m ->
+  template_blocks_b 0 Z.eqb (map p_tmpl ex_ps) (m_tmpl m) = true /\
+  apart_b (map (fun p => length (p_pos p)) ex_ps) (m_pos m) = true.
+Proof.
+  intros m Hm. destruct C12_ex_hyps as (H1 & H2 & H3 & H4).
+  split.
+  - apply (C12_checker_complete_templates Z 0 Z.eqb Z.eqb_refl). now apply (C12_template_blocks Z Z 0 4 ex_ps m).
+  - apply C12_checker_complete_apart. apply (C12_apart Z Z 0 4 ex_ps m); [lia|exact H3|exact Hm].
 Qed.
